@@ -491,7 +491,9 @@ class World:
         keep = op.get("keep", True)
 
         def mk_model(m):
-            return model.side(m, which, keep) if m.is_reaction else None
+            if not m.is_reaction or not m.role_consistent():
+                return None
+            return model.side(m, which, keep)
 
         def mk_real(g):
             fn = g.reactant if which == "R" else g.product
